@@ -15,10 +15,13 @@
   -------------------------------------------------
   T1  C11_parallelMoves_correct   generic algorithm = simultaneous assignment on the abstract machine
       C11_fuel_suffices           the recursion of `spanning_tree` terminates on functional maps
+      C11_each_target_written_once  destinations of the emitted `mov`/`restore`s = targets, each once
   T2  C11_x86_correct / C11_aarch64_correct / C11_rv64_correct   the concrete instruction sequences
       C11_x86_containsSpillEdge_complete                        the key lemma of the x86 scratch discipline
   T3  C11_refcount_ops            which erase/share instructions a substitution emits
-  T1+T3 on the level of a `Substitute` statement: C11_substitution_correct, C11_connections_wellformed.
+  T1+T3 on the level of a `Substitute` statement: C11_connections_wellformed, C11_substitution_correct
+      (abstract machine), C11_substitution_x86 / _aarch64 / _rv64 (machine state, real placement of
+      variables in registers and spill slots).
 
   What is NOT covered here: the effect of `erase`/`share` on the heap ("increases the count ... releases
   exactly once") is the meaning of `Backend::erase_block` / `share_block_n`, which belongs to the memory
@@ -28,6 +31,9 @@
 import Scc.PMoves.ProofsSubst
 import Scc.PMoves.ProofsX86
 import Scc.PMoves.ProofsA64RV
+import Scc.PMoves.ProofsOnce
+import Scc.PMoves.ProofsCheck
+import Scc.PMoves.ProofsSubstBackends
 
 namespace Scc.Props.C11
 open Scc.PMoves
@@ -61,6 +67,14 @@ theorem C11_fuelFor_suffices (pm : PMap) (hs : Sorted pm) (hf : Functional pm) (
     ∃ ops, parallelMoves pm csE = .ok ops :=
   C11_fuel_suffices pm hs hf csE (fuelFor pm) (by unfold fuelFor; omega)
 
+/-- Each target of a non-self move `s ↦ t` (`s ≠ t`) is the destination of exactly one emitted
+    `mov`/`restore` (`dests ops` is duplicate free), and no other temporary is ever a destination. -/
+theorem C11_each_target_written_once (pm : PMap) (hs : Sorted pm) (hf : Functional pm)
+    (csE : Root → Bool) :
+    ∃ ops, parallelMoves pm csE = .ok ops ∧ (dests ops).Nodup ∧
+      ∀ t, t ∈ dests ops ↔ ∃ s, s ≠ t ∧ Edge pm s t :=
+  parallelMoves_dests pm hs.keysNodup hs.targetsNodup hf csE
+
 /-! ## T2: the three backends -/
 
 /-- C11-T2 for x86-64.  Temporaries are location codes (`X86.decode`: `n < 16` register `n`, otherwise
@@ -73,7 +87,7 @@ def C11_x86_statement : Prop :=
         (X86.runCode code m).rd (X86.decode x) = m.rd (X86.decode x))
 
 theorem C11_x86_correct : C11_x86_statement :=
-  fun _ pm hs hf hu => X86.parallelMoves_correct_codes pm hs hf hu
+  fun _ pm hs hf hu => X86.parallelMoves_correct_codes pm hs hf (edge_ok_of_allNodes hu)
 
 /-- The key lemma: whenever a root's moves include a spill-to-spill `mov` (which clobbers `TEMP`),
     `contains_spill_edge` is `true`, so the saved value lives in `SPILL_TEMP`. -/
@@ -93,7 +107,7 @@ def C11_aarch64_statement : Prop :=
         (A64.runCode code m).rd (A64.decode x) = m.rd (A64.decode x))
 
 theorem C11_aarch64_correct : C11_aarch64_statement :=
-  fun _ pm hs hf hu => A64.parallelMoves_correct_codes pm hs hf hu
+  fun _ pm hs hf hu => A64.parallelMoves_correct_codes pm hs hf (edge_ok_of_allNodes hu)
 
 /-- C11-T2 for RV64 (registers only; scratch register 1). -/
 def C11_rv64_statement : Prop :=
@@ -103,24 +117,32 @@ def C11_rv64_statement : Prop :=
       (∀ x, RV64.usable x = true → (∀ s, ¬ Edge pm s x) → (RV64.runCode code m).regs x = m.regs x)
 
 theorem C11_rv64_correct : C11_rv64_statement :=
-  fun _ pm hs hf hu => RV64.parallelMoves_correct_codes pm hs hf hu
+  fun _ pm hs hf hu => RV64.parallelMoves_correct_codes pm hs hf (edge_ok_of_allNodes hu)
+
+/-- The executable checkers run by the test driver agree with the theorems: they always answer `true`
+    (on inputs outside the hypotheses by definition, inside by T2). -/
+theorem C11_checkers_true (pm : PMap) :
+    checkSubstX86 pm = true ∧ checkSubstA64 pm = true ∧ checkSubstRV64 pm = true :=
+  ⟨checkSubstX86_true pm, checkSubstA64_true pm, checkSubstRV64_true pm⟩
 
 /-! ## T3: reference counts -/
 
-/-- C11-T3.  `code_weakening_contraction` never panics on the transposed rearrangement and emits, in
-    context order, for every old binding `b` exactly `refOpsFor re ctx b`:
+/-- C11-T3.  `code_weakening_contraction` does not panic on the transposed rearrangement (as long as
+    `temporary_from_position` is defined on the context's positions) and emits, in context order, for
+    every old binding `b` exactly `refOpsFor tfp re ctx b`:
     nothing for `ext` bindings; for the others, with `k = targetCount re b.1` new variables bound to `b`:
     `k = 0`: one `erase`, `k = 1`: nothing, `k ≥ 2`: one `share (k-1)`; each on the `Fst` temporary of `b`
     (`refOpsFor_spec`, `C11_refcount_temporaries`).  They come before all moves: `codeSubstitute`
     returns `.ok refcount moves` (see `C11_substitution_correct`). -/
-theorem C11_refcount_ops (re : Rearrange) (ctx : Ctx) :
-    codeWeakeningContraction (transpose re ctx) ctx = some (ctx.flatMap (refOpsFor re ctx)) :=
-  codeWeakeningContraction_eq re ctx
+theorem C11_refcount_ops (tfp : Nat → Option Nat) (re : Rearrange) (ctx : Ctx)
+    (htot : TfpTotal tfp ctx.length) :
+    codeWeakeningContraction tfp (transpose re ctx) ctx = some (ctx.flatMap (refOpsFor tfp re ctx)) :=
+  codeWeakeningContraction_eq tfp re ctx htot
 
-/-- what `refOpsFor` is, case by case -/
+/-- what `refOpsFor` is, case by case (abstract temporaries: position `p` owns `2p` and `2p+1`) -/
 theorem refOpsFor_spec (re : Rearrange) (ctx : Ctx) (b : Nat × Chi) (hb : b ∈ ctx) :
     ∃ p, getPosition ctx b.1 = some p ∧ p < ctx.length ∧
-      refOpsFor re ctx b =
+      refOpsFor genericTemporary re ctx b =
         if b.2 = Chi.ext then []
         else if targetCount re b.1 = 0 then [.comment 0 b.1, .erase (2 * p)]
         else if targetCount re b.1 = 1 then []
@@ -130,37 +152,88 @@ theorem refOpsFor_spec (re : Rearrange) (ctx : Ctx) (b : Nat × Chi) (hb : b ∈
   unfold refOpsFor
   split
   · rfl
-  · simp only [variableTemporary, hp, Option.map_some]
+  · simp only [variableTemporary, hp, genericTemporary]
     rcases h : targetCount re b.1 with _ | _ | n <;> simp
 
 /-- the refcount instructions mention only `Fst` temporaries of non-`ext` old bindings -/
-theorem C11_refcount_temporaries (re : Rearrange) (ctx : Ctx) (op : ROp)
-    (h : op ∈ ctx.flatMap (refOpsFor re ctx)) :
+theorem C11_refcount_temporaries (tfp : Nat → Option Nat) (re : Rearrange) (ctx : Ctx) (op : ROp)
+    (h : op ∈ ctx.flatMap (refOpsFor tfp re ctx)) :
     ∃ b ∈ ctx, b.2 ≠ Chi.ext ∧
-      ∀ t, (op = .erase t ∨ ∃ n, op = .share t n) → variableTemporary 0 ctx b.1 = some t := by
+      ∀ t, (op = .erase t ∨ ∃ n, op = .share t n) → variableTemporary tfp 0 ctx b.1 = some t := by
   obtain ⟨b, hb, hop⟩ := List.mem_flatMap.mp h
   exact ⟨b, hb, refOpsFor_temporaries hop⟩
 
-/-! ## the `Substitute` statement as a whole (abstract machine) -/
+/-! ## the `Substitute` statement as a whole -/
 
-/-- `connections` yields a map that satisfies the hypotheses of T1/T2, with exactly the required moves. -/
+/-- `connections` yields a map that satisfies the hypotheses of T1/T2, with exactly the required moves
+    (`SubstEdge`: for every `(new := old)` with `old` in the context, `Snd(old) ↦ Snd(new)` and, unless
+    `old` is `ext`, `Fst(old) ↦ Fst(new)`). -/
 theorem C11_connections_wellformed (re : Rearrange) (ctx : Ctx) (hctx : (ctx.map (·.1)).Nodup)
     (hnew : (re.map (·.1.1)).Nodup) :
-    ∃ pm, connections (transpose re ctx) ctx (newContext re) = some pm ∧ Sorted pm ∧ Functional pm ∧
-      ∀ s t, Edge pm s t ↔ SubstEdge re ctx s t :=
-  connections_spec re ctx hctx hnew
+    ∃ pm, connections genericTemporary (transpose re ctx) ctx (newContext re) = some pm ∧ Sorted pm ∧
+      Functional pm ∧ ∀ s t, Edge pm s t ↔ SubstEdge genericTemporary re ctx s t :=
+  connections_spec genericTemporary genericTemporary_injective re ctx (genericTemporary_total _)
+    (genericTemporary_total _) hctx hnew
 
-/-- For a context with pairwise distinct ids and a rearrangement with pairwise distinct new ids:
-    the statement's code is `refcount` instructions (exactly those of T3) followed by moves which leave
-    every temporary of every new variable holding what the corresponding temporary of its source held
-    (`SubstEdge`), and change no other temporary. -/
+/-- Abstract machine.  For a context with pairwise distinct ids and a rearrangement with pairwise
+    distinct new ids: the statement's code is `refcount` instructions (exactly those of T3) followed by
+    moves which leave every temporary of every new variable holding what the corresponding temporary
+    of its source held (`SubstEdge`), and change no other temporary. -/
 theorem C11_substitution_correct {V : Type} (re : Rearrange) (ctx : Ctx) (csE : Root → Bool)
     (hctx : (ctx.map (·.1)).Nodup) (hnew : (re.map (·.1.1)).Nodup) :
-    ∃ rc mv, codeSubstitute re ctx csE = .ok rc mv ∧ rc = ctx.flatMap (refOpsFor re ctx) ∧
+    ∃ rc mv, codeSubstitute genericTemporary re ctx csE = .ok rc mv ∧
+      rc = ctx.flatMap (refOpsFor genericTemporary re ctx) ∧
       ∀ (σ : Nat → V) (sc : V),
-        (∀ s t, SubstEdge re ctx s t → (run mv (σ, sc)).1 t = σ s) ∧
-        (∀ x, (∀ s, ¬ SubstEdge re ctx s x) → (run mv (σ, sc)).1 x = σ x) :=
-  codeSubstitute_correct re ctx csE hctx hnew
+        (∀ s t, SubstEdge genericTemporary re ctx s t → (run mv (σ, sc)).1 t = σ s) ∧
+        (∀ x, (∀ s, ¬ SubstEdge genericTemporary re ctx s x) → (run mv (σ, sc)).1 x = σ x) :=
+  codeSubstitute_correct genericTemporary genericTemporary_injective re ctx csE
+    (genericTemporary_total _) (genericTemporary_total _) hctx hnew
+
+/-- x86-64: the `Substitute` statement on the machine state (registers + spill slots), with the real
+    placement `temporary_from_position` (at most 133 variables before and after). -/
+def C11_substitution_x86_statement : Prop :=
+  ∀ (V : Type) (re : Rearrange) (ctx : Ctx), 2 * ctx.length ≤ 267 → 2 * re.length ≤ 267 →
+    (ctx.map (·.1)).Nodup → (re.map (·.1.1)).Nodup →
+    ∃ mv, X86.codeSubstituteX86 re ctx =
+        (.ok (ctx.flatMap (refOpsFor X86.temporaryFromPosition re ctx)) mv, X86.lowerAll mv) ∧
+      ∀ m : MState V,
+        (∀ s t, SubstEdge X86.temporaryFromPosition re ctx s t →
+          (X86.runCode (X86.lowerAll mv) m).rd (X86.decode t) = m.rd (X86.decode s)) ∧
+        (∀ x, X86.usable x = true → (∀ s, ¬ SubstEdge X86.temporaryFromPosition re ctx s x) →
+          (X86.runCode (X86.lowerAll mv) m).rd (X86.decode x) = m.rd (X86.decode x))
+
+theorem C11_substitution_x86 : C11_substitution_x86_statement :=
+  fun _ re ctx h1 h2 h3 h4 => X86.codeSubstitute_correct re ctx h1 h2 h3 h4
+
+/-- AArch64 (at most 140 variables). -/
+def C11_substitution_aarch64_statement : Prop :=
+  ∀ (V : Type) (re : Rearrange) (ctx : Ctx), 2 * ctx.length ≤ 281 → 2 * re.length ≤ 281 →
+    (ctx.map (·.1)).Nodup → (re.map (·.1.1)).Nodup →
+    ∃ mv, A64.codeSubstituteA64 re ctx =
+        (.ok (ctx.flatMap (refOpsFor A64.temporaryFromPosition re ctx)) mv, A64.lowerAll mv) ∧
+      ∀ m : MState V,
+        (∀ s t, SubstEdge A64.temporaryFromPosition re ctx s t →
+          (A64.runCode (A64.lowerAll mv) m).rd (A64.decode t) = m.rd (A64.decode s)) ∧
+        (∀ x, A64.usable x = true → (∀ s, ¬ SubstEdge A64.temporaryFromPosition re ctx s x) →
+          (A64.runCode (A64.lowerAll mv) m).rd (A64.decode x) = m.rd (A64.decode x))
+
+theorem C11_substitution_aarch64 : C11_substitution_aarch64_statement :=
+  fun _ re ctx h1 h2 h3 h4 => A64.codeSubstitute_correct re ctx h1 h2 h3 h4
+
+/-- RV64 (at most 14 variables, registers only). -/
+def C11_substitution_rv64_statement : Prop :=
+  ∀ (V : Type) (re : Rearrange) (ctx : Ctx), 2 * ctx.length ≤ 28 → 2 * re.length ≤ 28 →
+    (ctx.map (·.1)).Nodup → (re.map (·.1.1)).Nodup →
+    ∃ mv, RV64.codeSubstituteRV64 re ctx =
+        (.ok (ctx.flatMap (refOpsFor RV64.temporaryFromPosition re ctx)) mv, RV64.lowerAll mv) ∧
+      ∀ m : MState V,
+        (∀ s t, SubstEdge RV64.temporaryFromPosition re ctx s t →
+          (RV64.runCode (RV64.lowerAll mv) m).regs t = m.regs s) ∧
+        (∀ x, RV64.usable x = true → (∀ s, ¬ SubstEdge RV64.temporaryFromPosition re ctx s x) →
+          (RV64.runCode (RV64.lowerAll mv) m).regs x = m.regs x)
+
+theorem C11_substitution_rv64 : C11_substitution_rv64_statement :=
+  fun _ re ctx h1 h2 h3 h4 => RV64.codeSubstitute_correct re ctx h1 h2 h3 h4
 
 /-! ## `normalize` -/
 
@@ -185,6 +258,8 @@ example : (run [.comment "#move variables", .save 3 false, .mov 3 2, .mov 2 1, .
     (σ0, 0)).1 1 = σ0 3 := rfl
 example : (run [.comment "#move variables", .save 3 false, .mov 3 2, .mov 2 1, .restore 1 false]
     (σ0, 0)).1 3 = σ0 2 := rfl
+example : dests [.comment "#move variables", .save 3 false, .mov 3 2, .mov 2 1, .restore 1 false]
+    = [3, 2, 1] := rfl
 
 -- chain 1 → 2 → 3
 def pmChain : PMap := [(1, [2]), (2, [3])]
@@ -250,11 +325,19 @@ example : checkSubstRV64 pmRV = true := rfl
 -- substitution: context [1:prd, 2:ext, 3:cns], new variables 7 := 1, 8 := 1, 9 := 2  (3 is dropped)
 def ctxEx : Ctx := [(1, .prd), (2, .ext), (3, .cns)]
 def reEx : Rearrange := [((7, .prd), 1), ((8, .prd), 1), ((9, .ext), 2)]
-example : (ctxEx.map (·.1)).Nodup ∧ (reEx.map (·.1.1)).Nodup := by decide
-example : codeSubstitute reEx ctxEx (fun _ => false) =
+example : (ctxEx.map (·.1)).Nodup ∧ (reEx.map (·.1.1)).Nodup ∧ 2 * ctxEx.length ≤ 28 ∧ 2 * reEx.length ≤ 28 := by
+  decide
+example : codeSubstitute genericTemporary reEx ctxEx (fun _ => false) =
     .ok [.comment 1 1, .share 0 1, .comment 0 3, .erase 4]
         [.comment "#move variables", .mov 2 0, .mov 5 3, .mov 3 1] := rfl
-example : ctxEx.flatMap (refOpsFor reEx ctxEx) = [.comment 1 1, .share 0 1, .comment 0 3, .erase 4] := rfl
+example : ctxEx.flatMap (refOpsFor genericTemporary reEx ctxEx) = [.comment 1 1, .share 0 1, .comment 0 3, .erase 4] := rfl
+-- the same statement on x86-64: positions 0..5 are rax, rdx, rsi, rdi, r8, r9 (codes 4..9)
+example : X86.codeSubstituteX86 reEx ctxEx =
+    (.ok [.comment 1 1, .share 4 1, .comment 0 3, .erase 8]
+         [.comment "#move variables", .mov 6 4, .mov 9 7, .mov 7 5],
+     [.COMMENT "#move variables", .MOV 6 4, .MOV 9 7, .MOV 7 5]) := rfl
+example : SubstEdge genericTemporary reEx ctxEx 1 3 :=   -- Snd of variable 1 goes to Snd of variable 8
+  ⟨(1, .prd), by decide, ((8, .prd), 1), by decide, rfl, 1, Or.inl rfl, rfl, rfl⟩
 example : normalize [(3, 1), (1, 2), (3, 0), (1, 2)] = [(1, [2]), (3, [0, 1])] := rfl
 
 end Scc.Props.C11
@@ -263,6 +346,10 @@ open Scc.Props.C11 in
 #print axioms C11_parallelMoves_correct
 open Scc.Props.C11 in
 #print axioms C11_fuel_suffices
+open Scc.Props.C11 in
+#print axioms C11_each_target_written_once
+open Scc.Props.C11 in
+#print axioms C11_checkers_true
 open Scc.Props.C11 in
 #print axioms C11_x86_correct
 open Scc.Props.C11 in
@@ -279,5 +366,11 @@ open Scc.Props.C11 in
 #print axioms C11_connections_wellformed
 open Scc.Props.C11 in
 #print axioms C11_substitution_correct
+open Scc.Props.C11 in
+#print axioms C11_substitution_x86
+open Scc.Props.C11 in
+#print axioms C11_substitution_aarch64
+open Scc.Props.C11 in
+#print axioms C11_substitution_rv64
 open Scc.Props.C11 in
 #print axioms C11_normalize_sorted
